@@ -1,7 +1,7 @@
 (* Props/C13.v — property C13: keys and scales map degrees to in-key notes; the nearest note is nearest.
    Only the property theorems live here; each is closed by a lemma of Tonal/KeyProofs.v or by
    computation over the table generated from the source (Generated/Tables.v). *)
-From Isobar Require Import Base.Prelude Tonal.Key Tonal.KeyProofs Generated.Tables.
+From Isobar Require Import Base.Prelude Tonal.Key Tonal.KeyProofs Tonal.Progression Tonal.ProgressionProofs Generated.Tables.
 From Coq Require Import String.
 
 (* degree d maps to tonic + scale[d mod n] + octave * floor(d / n) *)
@@ -118,4 +118,110 @@ Example C13_names_nonvacuous :
   List.length spellings = 561%nat
   /\ note_name_to_midi_note note_names "eb-1" = Some 3
   /\ midi_note_to_note_name note_names 61 = Some "C#4"%string.
+Proof. vm_compute. repeat split. Qed.
+
+(** * the key is a time-varying pattern (a key progression) and the melody contains rests *)
+
+(* the tonal patterns pull ONE note and ONE key per step - also when the note is a rest - so output i is
+   f (key i) (note i) and exists exactly as long as both patterns last (and i is below the count asked for) *)
+Theorem C13_progression_aligned : forall f n mel ks i y,
+  nth_error (tonal_nextn f n (mkT mel ks)) i = Some y <->
+  (i < n)%nat /\ exists x k, nth_error mel i = Some x /\ ksrc_nth ks i = Some k /\ y = f k x.
+Proof. exact tonal_nextn_some. Qed.
+Print Assumptions C13_progression_aligned.
+
+(* PFilterByKey never lets a note through that is out of the key in force AT THAT STEP, passes every note
+   that is in it unchanged, and drops the others *)
+Theorem C13_filter_progression : forall n mel ks i,
+  (forall y, nth_error (tonal_nextn filter_step n (mkT mel ks)) i = Some (Some y) ->
+     exists k, ksrc_nth ks i = Some k /\ key_contains k y = true /\ nth_error mel i = Some (Some y))
+  /\ (forall x k, (i < n)%nat -> nth_error mel i = Some (Some x) -> ksrc_nth ks i = Some k ->
+     nth_error (tonal_nextn filter_step n (mkT mel ks)) i = Some (if key_contains k x then Some x else None)).
+Proof.
+  intros n mel ks i. split.
+  - intros y H. apply tonal_nextn_some in H as [_ [x [k [A [B C]]]]].
+    symmetry in C. apply filter_step_some in C as [-> C]. exists k. repeat split; assumption.
+  - intros x k L A B. apply tonal_nextn_some. split; [exact L|]. exists (Some x), k. repeat split; assumption.
+Qed.
+Print Assumptions C13_filter_progression.
+
+(* PNearestNoteInKey: every note comes out as a note of the key in force at that step, and no note of that
+   key is strictly closer; a note already in that key is unchanged *)
+Theorem C13_snap_progression : forall n mel ks i x k,
+  (i < n)%nat -> nth_error mel i = Some (Some x) -> ksrc_nth ks i = Some k ->
+  0 < osize (kscale k) -> semis (kscale k) <> [] ->
+  exists y, nth_error (tonal_nextn snap_step n (mkT mel ks)) i = Some (Some y)
+    /\ key_contains k y = true
+    /\ (forall z, key_contains k z = true -> Z.abs (y - x) <= Z.abs (z - x))
+    /\ (key_contains k x = true -> y = x).
+Proof.
+  intros n mel ks i x k L A B Ho Hne. exists (nearest_note k x).
+  destruct (C13_nearest k x Ho Hne) as [P [Q R]].
+  split; [|split; [exact P|split; [exact Q|exact R]]].
+  apply tonal_nextn_some. split; [exact L|]. exists (Some x), k. repeat split; assumption.
+Qed.
+Print Assumptions C13_snap_progression.
+
+(* PDegree over a progression: degree d at step i is the d-th degree of key i, which is in key i *)
+Theorem C13_degree_progression : forall n mel ks i d k,
+  (i < n)%nat -> nth_error mel i = Some (Some d) -> ksrc_nth ks i = Some k ->
+  nth_error (tonal_nextn degree_step n (mkT mel ks)) i = Some (Some (key_get k d))
+  /\ (valid_scale (kscale k) = true -> key_contains k (key_get k d) = true).
+Proof.
+  intros n mel ks i d k L A B. split.
+  - apply tonal_nextn_some. split; [exact L|]. exists (Some d), k. repeat split; assumption.
+  - intros Hv. apply C13_degree_in_key. exact Hv.
+Qed.
+Print Assumptions C13_degree_progression.
+
+(* a rest stays a rest in all three patterns - and (C13_progression_aligned) it has consumed one key value
+   like any other step, so the steps after it are still judged against their own key *)
+Theorem C13_rest_progression : forall f n mel ks i k,
+  f = filter_step \/ f = snap_step \/ f = degree_step ->
+  (i < n)%nat -> nth_error mel i = Some None -> ksrc_nth ks i = Some k ->
+  nth_error (tonal_nextn f n (mkT mel ks)) i = Some None.
+Proof.
+  intros f n mel ks i k Hf L A B. apply tonal_nextn_some. split; [exact L|].
+  exists None, k. repeat split; try assumption. destruct Hf as [E|[E|E]]; rewrite E; reflexivity.
+Qed.
+Print Assumptions C13_rest_progression.
+
+(* non-vacuity: C major and F# minor pentatonic (pitch classes 1 4 6 9 11) alternate under a melody with
+   rests; the note after a rest is judged against the key of ITS step, not against the one a rest skipped *)
+Example C13_progression_nonvacuous :
+  let cmaj := mkKey 0 (mkScale [0; 2; 4; 5; 7; 9; 11] 12) in
+  let fsmp := mkKey 6 (mkScale [0; 3; 5; 7; 10] 12) in
+  tonal_nextn filter_step 9 (mkT [Some 60; None; Some 61; Some 62; None] (KSeq [cmaj; fsmp; fsmp; cmaj; fsmp; cmaj]))
+    = [Some 60; None; Some 61; Some 62; None]
+  /\ tonal_nextn filter_step 9 (mkT [Some 60; None; Some 61; Some 62] (KSeq [cmaj; cmaj; cmaj; fsmp]))
+    = [Some 60; None; None; None]
+  /\ tonal_nextn snap_step 3 (mkT [None; Some 62; Some 62; Some 62] (KSeq [cmaj; fsmp; cmaj])) = [None; Some 61; Some 62]
+  /\ tonal_nextn degree_step 9 (mkT [Some (-1); None; Some (-1)] (KSeq [cmaj; cmaj; fsmp])) = [Some (-1); None; Some 4].
+Proof. vm_compute. repeat split. Qed.
+
+(** * several keys in one process, built / re-configured / queried in any order *)
+
+(* the definition of the key in a slot is the last one given to THAT slot: operations on other slots (other
+   keys being built, re-tuned, given another scale - whatever their scales are called) never change it, so
+   every theorem above applies to every key of a session at every moment *)
+Theorem C13_session_frame : forall ops more slot,
+  Forall (fun o => sop_slot o <> slot) more -> session_key (ops ++ more) slot = session_key ops slot.
+Proof. exact session_key_frame. Qed.
+Print Assumptions C13_session_frame.
+
+Theorem C13_session_reconfigure : forall ops slot k,
+  session_key (ops ++ [SBuild slot k]) slot = Some k
+  /\ (forall t k0, session_key ops slot = Some k0 -> session_key (ops ++ [SRetune slot t]) slot = Some (mkKey t (kscale k0)))
+  /\ (forall s k0, session_key ops slot = Some k0 -> session_key (ops ++ [SRescale slot s]) slot = Some (mkKey (tonic k0) s)).
+Proof.
+  intros ops slot k. split; [apply session_key_build|].
+  split; [intros t k0; apply session_key_retune|intros s k0; apply session_key_rescale].
+Qed.
+Print Assumptions C13_session_reconfigure.
+
+Example C13_session_nonvacuous :
+  let ops := [SBuild 0 (mkKey 0 (mkScale [0; 4; 7] 12)); SBuild 1 (mkKey 0 (mkScale [0; 1; 4; 6; 8; 11] 12));
+              SRetune 0 5; SBuild 2 (mkKey 0 (mkScale [0; 3; 7] 12))] in
+  key_contains (sk ops 4 1) 1 = true /\ key_contains (sk ops 4 0) 1 = false /\ key_contains (sk ops 2 0) 4 = true
+  /\ key_contains (sk ops 4 0) 9 = true /\ nearest_note (sk ops 4 2) 2 = 3.
 Proof. vm_compute. repeat split. Qed.
